@@ -14,10 +14,13 @@ import (
 	"strings"
 	"testing"
 
+	"golang.org/x/mod/module"
 	"golang.org/x/mod/sumdb/dirhash"
+	modzip "golang.org/x/mod/zip"
 	"pgregory.net/rapid"
 
 	"verif/harness/internal/pbt"
+	"verif/harness/internal/zipgen"
 )
 
 func init() {
@@ -542,4 +545,73 @@ var subs = []pbt.Sub{
 func TestGen(t *testing.T)    { pbt.RunAll(t, append(subs, extraSubs...)) }
 func TestReplay(t *testing.T) { pbt.Replay(t, append(subs, extraSubs...)) }
 
-var extraSubs []pbt.Sub
+// ---- module zips produced by the zip package
+
+func genModZip(t *rapid.T) zipgen.ListCase {
+	c := zipgen.GenList(t, false) // mild lists: they usually pass the file check
+	if rapid.IntRange(0, 5).Draw(t, "bigfile") == 0 {
+		n := []int{32769, 40000, 70000}[rapid.IntRange(0, 2).Draw(t, "bigsize")]
+		c.Entries = append(c.Entries, zipgen.Entry{Name: "big/data.bin", Mode: "file", Content: bigContent(n, rapid.Bool().Draw(t, "compressible")), Size: -1})
+	}
+	return c
+}
+
+func checkModZip(c zipgen.ListCase) pbt.Result {
+	r := pbt.Result{}
+	if !zipgen.OKListBig(c, 1<<20) {
+		r.Skip = true
+		return r
+	}
+	var files []modzip.File
+	for _, e := range c.Entries {
+		files = append(files, zipgen.File{E: e})
+	}
+	m := module.Version{Path: c.Path, Version: c.Version}
+	var buf bytes.Buffer
+	if err := modzip.Create(&buf, m, files); err != nil {
+		r.Classes = []string{"create failed (outside this sub's interest)"}
+		return r
+	}
+	dir, err := os.MkdirTemp("", "verif-c19z-")
+	if err != nil {
+		panic(err)
+	}
+	defer os.RemoveAll(dir)
+	zp := filepath.Join(dir, "m.zip")
+	os.WriteFile(zp, buf.Bytes(), 0o644)
+	target := filepath.Join(dir, "x")
+	if err := modzip.Unzip(target, m, zp); err != nil {
+		r.Classes = []string{"unzip failed (C05's business)"}
+		return r
+	}
+	prefix := c.Path + "@" + c.Version
+	hz, err1 := dirhash.HashZip(zp, dirhash.Hash1)
+	hd, err2 := dirhash.HashDir(target, prefix, dirhash.Hash1)
+	zr, _ := zip.OpenReader(zp)
+	n := 0
+	var fs []file
+	if zr != nil {
+		for _, zf := range zr.File {
+			rc, _ := zf.Open()
+			b, _ := io.ReadAll(rc)
+			rc.Close()
+			fs = append(fs, file{Name: zf.Name, Content: b})
+			n++
+		}
+		zr.Close()
+	}
+	r.NonTrivial = n >= 2
+	r.Classes = []string{"module zip hashed"}
+	if err1 != nil || err2 != nil || hz != hd {
+		r.Fail = pbt.Failf("zip-vs-dir", "HashZip = %s (%v), HashDir of its extraction under %q = %s (%v)", hz, err1, prefix, hd, err2)
+		return r
+	}
+	if want := formula(fs); hz != want {
+		r.Fail = pbt.Failf("zip-formula", "HashZip = %s, documented formula over the archive's entries = %s", hz, want)
+	}
+	return r
+}
+
+var extraSubs = []pbt.Sub{
+	pbt.New("modzip", 1500, 6000, genModZip, checkModZip),
+}
